@@ -192,6 +192,9 @@ class Deriver:
     def __init__(self):
         self.memo: dict = {}
         self.agg_memo: dict = {}
+        # public extended key -> its private counterpart, where the reader was handed one (BIP380: a descriptor
+        # may name the same key privately elsewhere; whoever holds that private key can take a hardened step)
+        self.known: dict = {}
 
     def derive(self, x: rb.XKey, path) -> rb.XKey:
         path = tuple(path)
@@ -225,6 +228,8 @@ class Deriver:
             x = key.xkey
             if neutered and x.is_private:
                 x = rb.neuter(x)
+            elif not neutered and not x.is_private:
+                x = self.known.get(x, x)
             return rb.xkey_pubkey(self.derive(x, path))
         # musig: BIP390
         parts = [self.sec(p, index, neutered) for p in key.participants]
